@@ -202,10 +202,19 @@ func judgeText(c Case, w *vkit.W) {
 			}
 		}
 	}
-	got, err := uu.DefaultParser(text, uu.Rule(c.Rule))
-	check("DefaultParser[string]", got, err)
-	got, err = uu.DefaultParser(w.Scratch(text), uu.Rule(c.Rule)) // a reused caller buffer
-	check("DefaultParser[[]byte]", got, err)
+	var got uu.ID
+	var err error
+	if w.Flip() { // the order of the two instantiations alternates
+		got, err = uu.DefaultParser(text, uu.Rule(c.Rule))
+		check("DefaultParser[string]", got, err)
+		got, err = uu.DefaultParser(w.Scratch(text), uu.Rule(c.Rule)) // a reused caller buffer
+		check("DefaultParser[[]byte]", got, err)
+	} else {
+		got, err = uu.DefaultParser(w.Scratch(text), uu.Rule(c.Rule))
+		check("DefaultParser[[]byte]", got, err)
+		got, err = uu.DefaultParser(text, uu.Rule(c.Rule))
+		check("DefaultParser[string]", got, err)
+	}
 	if v.ok || len(text) == 36 || len(text) == 45 {
 		got, err = uu.DefaultParser(namedS(text), uu.Rule(c.Rule))
 		check("DefaultParser[named string]", got, err)
